@@ -243,6 +243,49 @@ def _receiver_chain_has(body, op, call, depth=0):
     return False
 
 
+def eval_get_sync_peers(f, g, rows, fails):
+    """Store::get_sync_peers evaluated: the multimap's value iterator yields `rows` (oldest first; None = a failing row)"""
+    from . import feval as E, coll
+    C = coll.Collections(f)
+
+    def oracle(kind, name, payload, site):
+        if kind != "call":
+            return None
+        t, args, it = payload
+        names = [it.tokname(a).strip("&*") for a in args]
+        full = (t["f"].get("full") or "") + " " + (t["f"].get("res") or "")
+        if name == "tables" and callee_matches(t, r"store::fs::Store::tables$"):
+            return E.Ok(E.Tok("tables"))
+        if name == "get" and "Multimap" in full:
+            if fails:
+                return E.Err(E.Tok("storage-error"))
+            return E.Ok(coll.seq("vec", [E.Ok(E.Tok("guard:%s" % r)) if r is not None else E.Err(E.Tok("row-error")) for r in rows]))
+        if name == "value" and names and names[0].startswith("guard:"):
+            nm = "cell:%s" % names[0][6:]
+            it.heap[nm] = E.Tok(names[0][6:])
+            return ("tuple", [E.Tok("nanos"), E.href(nm)])
+        if name in ("as_bytes", "get") and "NonZero" in full:
+            return E.Int(5)
+        if name == "as_bytes":
+            return E.Tok("b(%s)" % names[0])
+        return C.handle(kind, name, payload, site)
+    try:
+        ret, itp = E.run_it(f, g.path, [E.href("self"), E.href("namespace")], {"self": E.Tok("store"), "namespace": E.Tok("namespace")}, oracle)
+        v = itp.resolve(ret)
+
+        def render(x, d=0):
+            x = itp.resolve(x)
+            if coll.is_seq(x):
+                return "[" + ",".join(render(y, d + 1) for y in x[2]) + "]"
+            if x is not None and x[0] == "adt" and x[3] and d < 4:
+                base = E.describe(("adt", x[1], x[2], {}), f)
+                return base + "(" + ",".join(render(x[3][i], d + 1) for i in sorted(x[3])) + ")"
+            return E.describe(x, f)
+        return render(v)
+    except E.Unsupported as e:
+        return "UNSUPPORTED-FORM: %s" % e
+
+
 def r4(ctx):
     f = ctx.facts
     g = f.body("store::fs::Store::get_sync_peers")
@@ -260,8 +303,33 @@ def r4(ctx):
     pushes = [t for x in fam for _, t in x.calls() if t["f"].get("name") == "push"]
     collects = [t for _, t in g.calls() if t["f"].get("name") in ("collect", "try_collect") and revs and _receiver_chain_has(g, t["a"][0], revs[0])]
     dropping = [t["f"].get("name") for x in fam for _, t in x.calls() if t["f"].get("name") in ("take", "skip", "filter", "filter_map", "step_by", "take_while", "skip_while", "nth", "last", "truncate", "pop", "dedup", "retain")]
-    ctx.check((len(pushes) == 1) != (len(collects) == 1) and not dropping, "C17.R4", g.path, "pushes-every-row",
-              "each row's peer reaches the result once (push sites %d, collect-from-rev sites %d, row-dropping adaptors %s)" % (len(pushes), len(collects), dropping), g.sp)
+    structural = (len(pushes) == 1) != (len(collects) == 1) and not dropping
+    # round 12 (RF33: `Some(peers).filter(non-empty)` is not a row-dropping adaptor): the reader evaluated on scripted rows decides;
+    # the site count above is kept only as the fallback when the function is not evaluable
+    cells = (("three-rows", ["p1", "p2", "p3"], False), ("one-row", ["p1"], False), ("no-rows", [], False), ("failing-row", ["p1", None, "p3"], False), ("read-fails", [], True))
+    problems, evaluated = [], True
+    for label, rows, fails in cells:
+        got = eval_get_sync_peers(f, g, rows, fails)
+        if got.startswith("UNSUPPORTED"):
+            evaluated = False
+            problems.append("%s: %s" % (label, got))
+            break
+        if fails or None in rows:
+            want = ["Err"]
+            okc = got.startswith("Err")
+        elif not rows:
+            want = ["Ok(None)"]
+            okc = got == "Ok(None)"
+        else:
+            want = ["Ok(Some([%s]))" % ",".join(reversed(rows))]
+            okc = got in want
+        if not okc:
+            problems.append("%s: returns %s, spec %s" % (label, got, want[0]))
+    if evaluated:
+        ctx.check(not problems, "C17.R4", g.path, "pushes-every-row", "evaluated on %d scripted row sets of the peers table (oldest first): the answer is every row's peer, most recent first, None for none, an error for a failing row or read; deviating: %s" % (len(cells), problems), g.sp)
+    else:
+        ctx.check(structural, "C17.R4", g.path, "pushes-every-row",
+                  "not evaluable (%s); fallback: each row's peer reaches the result once (push sites %d, collect-from-rev sites %d, row-dropping adaptors %s)" % (problems, len(pushes), len(collects), dropping), g.sp)
     ctx.floor("C17.R4", 3)
 
 
